@@ -111,7 +111,8 @@ Inductive cstep :=
 | CXCeils (ps ks vs : list Z)
 | CContains (ps : list Z) (bs : list bool)                       (* treeset: Contains(p) for every probe p *)
 | CBGets (ps vs : list Z) (fs : list bool)
-| CBGetKeys (ps ks : list Z) (fs : list bool).
+| CBGetKeys (ps ks : list Z) (fs : list bool)
+| CKeysLen (n : Z).                                              (* len(Keys()) (treeset: len(Values())) *)
 
 Fixpoint zip3 {A B C D} (f : A -> B -> C -> D) (a : list A) (b : list B) (c : list C) : list D :=
   match a, b, c with
@@ -159,17 +160,38 @@ Definition expand (c : cstep) : list (gop * gout) :=
                         (zip3 (fun p v f => (GB (BGet p), RB (BOGet v f))) ps vs fs)
   | CBGetKeys ps ks fs => guard (same_len ps ks && same_len ps fs)
                         (zip3 (fun p k f => (GB (BGetKey p), RB (BOGetKey k f))) ps ks fs)
+  | CKeysLen _ => []          (* handled by [keys_len_step] *)
   end.
+
+(* the call that lists the keys of each kind of container, and the length of what it returned *)
+Definition keys_op (k : kind) : gop :=
+  match k with KTSet => GS SValues | KBidi => GB BKeys | _ => GO Keys end.
+Definition keys_len (r : gout) : option Z :=
+  match r with
+  | RO (OKeys l) | RS (SOVals l) | RB (BOKeys l) => Some (Z.of_nat (length l))
+  | _ => None
+  end.
+Definition len_is (r : gout) (n : Z) : bool :=
+  match keys_len r with Some m => m =? n | None => false end.
 
 Record case := { c_kind : kind; c_steps : list cstep }.
 
+Definition kind_of_m (m : mstate) : kind :=
+  match m with MRB _ => KRB | MAVL _ => KAVL | MBT o _ => KBT o | MTM _ => KTMap | MTS _ => KTSet | MBD _ => KBidi end.
+
 Definition do_step (st : mstate * sstate) (c : cstep) : (mstate * sstate) * nat :=
+  match c with
+  | CKeysLen n =>
+    let o := keys_op (kind_of_m (fst st)) in
+    (st, kind_of (len_is (snd (model_step (fst st) o)) n) (len_is (snd (spec_step (snd st) o)) n))
+  | _ =>
   let calls := expand c in
   let ops := map fst calls in
   let exp := map snd calls in
   let '(ms', mouts) := run model_step (fst st) ops in
   let '(ss', souts) := run spec_step (snd st) ops in
-  ((ms', ss'), kind_of (list_eqb gout_eqb mouts exp) (list_eqb gout_eqb souts exp)).
+  ((ms', ss'), kind_of (list_eqb gout_eqb mouts exp) (list_eqb gout_eqb souts exp))
+  end.
 
 Definition check_case (c : case) : nat :=
   scan do_step (init_m (c_kind c), init_s (c_kind c)) (c_steps c) 0.
